@@ -1,6 +1,7 @@
 import Crd.Model.Raw
 import Crd.Spec.SmfStrict
 import Crd.Generated.Grammar
+import Crd.Generated.Defaults
 
 /-!
 # Line-protocol driver: one request per line on stdin, one reply per line on stdout.
@@ -250,6 +251,17 @@ def handle (op : String) : R String := do
     let ops ← rList rMidixOp
     let w := ops.foldl (fun w f => f w) (MW.new n "Piano" 0 "crd")
     pure ("ok " ++ pList (fun t => pList (fun (de : Nat × Ev) => s!"{de.1} {hexOfBytes de.2.bytes}") (smfTrack t.ops)) w.tracks)
+  | "smfcheck" => do
+    let n ← rNat
+    let bs ← rBytes
+    pure (match Spec.parseSMF bs with
+      | .ok f =>
+        if f.tracks.length ≠ n then s!"violates track-count {f.tracks.length} expected {n}"
+        else if !(f.tracks.all Spec.notesBalanced) then "violates unbalanced-notes"
+        else if !((f.tracks.drop 1).all (fun t => t.all (fun e => !Spec.isTimingMeta e))) then "violates timing-meta-outside-first-track"
+        else if f.division ≠ Generated.ticksPerQuarter then s!"violates division {f.division}"
+        else "holds"
+      | .error e => "violates strict-parse: " ++ e)
   | "smfparse" => do
     let bs ← rBytes
     pure (match Spec.parseSMF bs with
